@@ -135,3 +135,6 @@ add(
         [c("r1", A + "/", timeout={"pool": 0}), c("r2", A + "/x", timeout={"pool": 0}, gates=("start",)), c("r3", B + "/y", timeout={"pool": 0}, gates=("start",))],
     )
 )
+add(Scenario("h1-origins-port", dict(max_connections=3), [c("r1", "http://a.test:8001/1"), c("r2", "http://a.test:8002/2"), c("r3", "http://a.test:8001/3"), c("r4", "http://a.test/4"), c("r5", "http://a.test:80/5")]))
+add(Scenario("h1-origins-scheme", dict(max_connections=3), [c("r1", "http://a.test:8443/1"), c("r2", "https://a.test:8443/2"), c("r3", "http://a.test:8443/3"), c("r4", "wss://a.test:8443/4"), c("r5", "ws://a.test:8443/5")]))
+add(Scenario("h1-origins-host", dict(max_connections=2), [c("r1", "https://a.test/1"), c("r2", "https://b.test/2"), c("r3", "https://a.test:443/3"), c("r4", "https://A.TEST/4")]))
